@@ -538,7 +538,7 @@ func (w *World) Query(pred Predicate) *FactSet {
 			pID := pred.Terms[i]
 
 			if pID.Type() != TermTypeVariable {
-				if fID.Type() != pID.Type() || fID != pID {
+				if fID.Type() != pID.Type() || !fID.Equal(pID) {
 					matches = false
 					break
 				}
